@@ -18,7 +18,7 @@ ID = "C18"
 RULE = (
     "closed meshes {tetra, cube, octa, prism, cubesplit, pyr4..8, cs2, icosa} and every non-empty face subset of the meshes with <= 8 faces x index deviations <= k "
     "(node relabelling, face order, start corner) x placements {as is, a node rotated onto the north pole, onto the south pole, onto lon=180 lat=0, generic tilt} x data "
-    "{identity, generic; face- and node-centred; leading dims (), (2)}; JIT on, and a JIT-off pass in a separate interpreter. non-trivial = mesh with a node of "
+    "{identity, generic; face- and node-centred; leading dims (), (2); element dimension last, first and in the middle}; JIT on, and a JIT-off pass in a separate interpreter. non-trivial = mesh with a node of "
     "valence >= 4 or a partial grid with both interior and boundary nodes; distinct = (mesh/subset, deviation, placement)"
 )
 ASSUMPTIONS = [
@@ -149,6 +149,21 @@ def check_dual(g, m, V, focus, with_data=True):
                         bad("c18:data:values", "%s-centred %s data changed or permuted on the dual" % (elem, dname))
                     if out.uxgrid is None or out.uxgrid.n_node != m.n_face:
                         bad("c18:data:grid", "dual data is not attached to the dual grid")
+        # the element dimension need not be the last one
+        for elem, nn in (("n_face", m.n_face), ("n_node", m.n_node)):
+            other = "n_node" if elem == "n_face" else "n_face"
+            base = build.generic_field(nn)
+            for dims, arr in (((elem, "lev"), np.stack([base, 2 * base + 1], axis=1)), (("t", elem, "lev"), np.stack([np.stack([base, -base], axis=1), np.stack([base + 5, 3 * base], axis=1)], axis=0))):
+                try:
+                    out = ux.UxDataArray(arr.copy(), dims=dims, uxgrid=g, name="q").get_dual()
+                except Exception as e:
+                    bad("c18:data:raises:%s" % type(e).__name__, "UxDataArray.get_dual() on data with dims %s raised %r" % (dims, e))
+                    continue
+                want = tuple(other if d_ == elem else d_ for d_ in dims)
+                if tuple(out.dims) != want:
+                    bad("c18:data:dims-not-last", "data with dims %s: dual dims %s, expected %s" % (dims, tuple(out.dims), want))
+                elif not np.array_equal(np.asarray(out.values), arr):
+                    bad("c18:data:values-not-last", "data with dims %s changed or was permuted on the dual" % (dims,))
     return d
 
 
